@@ -48,7 +48,7 @@ claim("C14", "exploration", "runtime monitor: path-agreement + definition oracle
       "Every aggregate on the row / shared / refs / columnar (fresh, pushed, cached, after drain) / Aggregator paths and through the engine against a straightforward reference and against each other on random batches incl. missing / NaN / inf / strings, all residues mod 4; raw simd kernels; sanitizer lanes: Miri interprets a deterministic subset on the scalar get_unchecked path and (with +avx2) the intrinsics path, valgrind memcheck runs the native AVX2 path of the same workload. Absence of reports = no UB observed on the executed batches.",
       "stddev/ema NaN handling and count_distinct across int/float-equal values are undocumented: only path agreement there. Miri cannot cross FFI; red-zone tools miss non-adjacent overflows.", "DESIGN §2 C14")
 claim("C15", "exploration", "runtime monitor: reference join model compared at every arrival (direct JoinBuffer and engine lanes)",
-      "For 2- and 3-way joins with small windows, few keys, caps 2-4 and out-of-order timestamps: an output exists iff every source has a retained same-key event with ts >= arriving.ts - window, and the partners are the most recently arrived such events; compared at every arrival. Disagreements are classified by witness features (late arrival with a partner below the high-water cutoff, cap interplay).",
+      "For 2- and 3-way joins with small windows, few keys, caps 2-4 and out-of-order timestamps: an output exists iff every source has a retained same-key event with ts >= arriving.ts - window, and the partners are the most recently arrived such events; compared at every arrival. A disagreement is the known high-water finding only if the observation equals an exact mirror of that expiry rule; anything else is a violation.",
       "One-sided window reading as try_correlate states it; retained = last cap arrivals per (source,key).", "DESIGN §2 C15")
 claim("C16", "exploration", "runtime monitor: differential between the four real entry points, root-cause classification with hook H4",
       "Ordered output sequences of process / process_batch / process_batch_sync / process_batch_shared under random batch splits for generated multi-stream programs; a disagreement is classified order-only vs content by per-stream projection, and content disagreements are attributed to the known level-order-vs-depth-first root cause only when hook H4 shows the diverging stream (or one upstream) processed events at >=2 chain depths.",
@@ -66,7 +66,7 @@ claim("C11", "exploration", "runtime monitor: catch_unwind / subprocess-abort de
 claim("C22", "fault_enumeration", "runtime monitor: crash-injecting StateStore under the real REST routes + model of acknowledged state",
       "Histories of <=8 tenant/pipeline management operations over 2 tenants x 3 pipelines through the real warp routes on a CrashStore (MemoryStore / FileStore) that fails every write from index k on, for EVERY k; restart through the path main.rs takes; recovered tenants, keys, pipelines (name, source, status) must equal the model before or after the single in-flight operation.", "Crash granularity is a whole put/delete (inside FileStore::put is C21's subject).", "DESIGN §2 C22")
 claim("C26", "exploration", "runtime monitor: offline checker over the H7 cross-context trace + differential with the plain engine, under seeded schedule perturbation",
-      "Real ContextOrchestrator on OS threads, capacities 1-1000, hook H7 yields/sleeps at recv/forward/barrier: every forwarded cross-context event received exactly once and in production order; outputs vs the same program without contexts. Reports distinct interleavings and full-queue episodes actually seen.", "Schedules are sampled, not enumerated; a missing receive counts as loss only when the forward had observed a full queue, otherwise inconclusive.", "DESIGN §2 C26")
+      "Real ContextOrchestrator on OS threads, capacities 1-1000, hook H7 yields/sleeps at recv/forward/barrier: every forwarded cross-context event received exactly once and in production order; outputs vs the same program without contexts. Reports distinct interleavings and full-queue episodes actually seen.", "Schedules are sampled, not enumerated; a missing receive counts as loss when H7 recorded the failed try_send; enqueued-but-unreceived after 1 s / 4 s reruns is inconclusive.", "DESIGN §2 C26")
 claim("C27", "exploration", "runtime monitor: consistent-cut condition over the H7 trace for every completed coordinated checkpoint",
       "Random trigger_checkpoint positions on the same orchestrator runs; per completed checkpoint: forwarded-before-producer-barrier == received-before-consumer-barrier for every cross-context event; stored checkpoint holds one snapshot per context whose events_processed equals the events received before the barrier.", "Sampled schedules; the model-checked half of the quantifier is out of family; no restore+replay end-to-end lane.", "DESIGN §2 C27")
 claim("C28", "exploration", "runtime monitor: request sequences through the real warp routes with deep tenant snapshots",
